@@ -330,6 +330,19 @@ var reviewedNilSites = map[string]string{
 	"implements.extractMethodsFromNamedType#(*go/types.Signature).Recv->.object": "the function comes from types.NewMethodSet(...).At(i).Obj(): a method, whose signature always has a receiver (go/types contract)",
 }
 
+// recvOfMethodSetEntry: v is Signature.Recv() of the signature of a method-set entry (MethodSet.At(i).Obj()).
+func (c *Ctx) recvOfMethodSetEntry(v ssa.Value) bool {
+	call, ok := v.(*ssa.Call)
+	if !ok || c.P.CallTo(call, "(*go/types.Signature).Recv") == nil || len(call.Call.Args) == 0 {
+		return false
+	}
+	d := c.P.Desc(call.Call.Args[0])
+	if strings.HasPrefix(d, "{") {
+		return false // several origins: not decided here
+	}
+	return strings.Contains(d, "call((*go/types.Selection).Obj; call((*go/types.MethodSet).At; ")
+}
+
 // assignedBeforeWalk: fields of module structs that are only read by walk callbacks and are assigned a non-nil
 // value (address of a local, made map, ...) on every path of each iteration before the walk starts.
 func (c *Ctx) assignedBeforeWalk() map[fieldKey]bool {
@@ -434,6 +447,8 @@ func (c *Ctx) ruleNilDeref(pkgs ...string) {
 				cons := fmt.Sprintf("%s#%s", FuncName(fn), derefTag(P, u, v))
 				if c.nilGuarded(u, v) {
 					c.ok("NIL-DEREF", cons, P.Pos(u.Pos()), "guarded: "+why)
+				} else if c.recvOfMethodSetEntry(v) {
+					c.ok("NIL-DEREF", cons, P.Pos(u.Pos()), "the signature is that of types.NewMethodSet(...).At(i).Obj(): a method, whose signature always has a receiver (go/types contract)")
 				} else if reason, ok := reviewedNilSites[cons]; ok {
 					c.ok("NIL-DEREF", cons, P.Pos(u.Pos()), "reviewed: "+reason)
 				} else {
@@ -1278,6 +1293,29 @@ func (c *Ctx) mapInitBefore(fn *ssa.Function, at ssa.Instruction, recv ssa.Value
 		if flag == nil {
 			continue
 		}
+		// fourth idiom: the same written out in place - `if !recv.Flag { recv.F = make(...); recv.Flag = true }`
+		{
+			madeMap, setFlag := false, false
+			for _, ins := range b.Succs[branch].Instrs {
+				st, ok := ins.(*ssa.Store)
+				if !ok {
+					continue
+				}
+				f3, ok := st.Addr.(*ssa.FieldAddr)
+				if !ok || P.Desc(f3.X) != recvD {
+					continue
+				}
+				if _, isMk := st.Val.(*ssa.MakeMap); isMk && f3.Field == fa.Field {
+					madeMap = true
+				}
+				if cv, isC := constBool(st.Val); isC && cv && f3.Field == flag.Field {
+					setFlag = true
+				}
+			}
+			if madeMap && setFlag && c.flagSetOnlyWithMap(flag, fa.Field) {
+				return true
+			}
+		}
 		for _, ins := range b.Succs[branch].Instrs {
 			call, ok := ins.(*ssa.Call)
 			if !ok {
@@ -1376,6 +1414,46 @@ func (c *Ctx) calleeEnsuresMap(callee *ssa.Function, field int) bool {
 		}
 	}
 	return false
+}
+
+// flagSetOnlyWithMap: wherever product code sets the flag field, the same block stores a fresh map into field
+// mapField of the same object (flag set => map allocated).
+func (c *Ctx) flagSetOnlyWithMap(flag *ssa.FieldAddr, mapField int) bool {
+	P := c.P
+	n := P.moduleStruct(deref(flag.X.Type()))
+	if n == nil {
+		return false
+	}
+	ok := true
+	for _, fn := range P.ModFuncs {
+		allInstrs(fn, func(b *ssa.BasicBlock, ins ssa.Instruction) {
+			st, isS := ins.(*ssa.Store)
+			if !isS {
+				return
+			}
+			fa, isF := st.Addr.(*ssa.FieldAddr)
+			if !isF || fa.Field != flag.Field || P.moduleStruct(deref(fa.X.Type())) != n {
+				return
+			}
+			if cv, isC := constBool(st.Val); isC && !cv {
+				return
+			}
+			with := false
+			for _, i2 := range b.Instrs {
+				if s2, isS2 := i2.(*ssa.Store); isS2 {
+					if f2, isF2 := s2.Addr.(*ssa.FieldAddr); isF2 && f2.Field == mapField && f2.X == fa.X {
+						if _, isMk := s2.Val.(*ssa.MakeMap); isMk {
+							with = true
+						}
+					}
+				}
+			}
+			if !with {
+				ok = false
+			}
+		})
+	}
+	return ok
 }
 
 func (c *Ctx) flagOnlySetIn(flag *ssa.FieldAddr, only *ssa.Function) bool {
